@@ -1,6 +1,7 @@
 CONSTANTS
   N = 0
   MaxCalls = 0
+  ErrClosesNext = TRUE
 SPECIFICATION TraceSpec
 POSTCONDITION TraceAccepted
 CHECK_DEADLOCK FALSE
